@@ -8,7 +8,8 @@ REQUIRED = ['Petl.C13.' + n for n in (
     'selectlt_ge_complement selectle_gt_complement range_selectors negated_selectors negated_selector_is_complement '
     'rowslice_eq_islice head_is_take tail_is_suffix selectors_as_expected selecteq_sem selectne_sem selectlt_sem selectle_sem '
     'selectgt_sem selectge_sem selectin_sem selectnotin_sem selectrangeopenleft_sem selectrangeopenright_sem selectrangeopen_sem '
-    'selectrangeclosed_sem selecttrue_sem selectfalse_sem selectnone_sem selectnotnone_sem').split()]
+    'selectrangeclosed_sem selecttrue_sem selectfalse_sem selectnone_sem selectnotnone_sem compound_field_cells cellOr_absent cellOr_present '
+    'facet_covers facet_only_own_key').split()]
 
 REFS = [None, 1, 1.0, 2, 2.5, 'a', 'b', (1, 'a'), [1, 'a'], True, b'a']
 CELLS = gen.SMALL_KEYS + [[1, 'a'], 0, '', ()]
